@@ -1,3 +1,4 @@
+import Proofs.CodecRT
 import Proofs.TopicBasic
 import Proofs.TopicMatch
 import Proofs.TopicOps
